@@ -10,7 +10,8 @@ EXPLANATION = ("C06: every rejection the property names is shown to be a guard t
                "leftover/no-values/overflow/foreign-byte guards; (R4) every error variant is still constructed; (R5) the "
                "range-mapping bitfield reader rejects foreign bytes."
                " (R8) the arrays the indices were checked against reach the map unshortened; (R9) kind dispatch cannot route a regular map around decode_regular; (R10) decode_hermes hands the raw map over as parsed."
-               " (R11) the decode loop accumulators are reset/advanced only as the v3 format says, so an index that passed its range check is the index stored.")
+               " (R11) the decode loop accumulators are reset/advanced only as the v3 format says, so an index that passed its range check is the index stored."
+               " (R12) decode_index decodes every raw section of an index map (one section per raw section, none skipped), so the checks above apply to every embedded map.")
 NOT_DECIDED = "nothing value-level beyond the listed guards; table contents are decided by C11.R1."
 
 
@@ -29,6 +30,9 @@ def r4(ctx):
 
 
 RULES = {
+    # index maps: every raw section is decoded (none skipped, overwritten or decoded lazily), so a malformed embedded map
+    # cannot hide behind another section
+    "C06.R12": lambda ctx: __import__("rules.bldrules", fromlist=["x"]).sections_sorted(ctx, "C06.R12"),
     # no segment is skipped on its way to the arity and range checks (accumulator rule: every parsed segment is processed)
     "C06.R11": lambda ctx: __import__("rules.decoderrules", fromlist=["x"]).accumulators(ctx, "C06.R11"),
     "C06.RG": lambda ctx: __import__("rules.foundations", fromlist=["x"]).no_global_state(ctx, "C06.RG"),
